@@ -12,6 +12,7 @@ for p in $(/verif/bin/mqttverif list | cut -d: -f1); do
   out=$(/verif/bin/mqttverif check -p $p -repo $wt -no-evidence 2>&1)
   if echo "$out" | grep -q '^VIOLATION'; then
     n=$((n+1))
+    echo "$out" | grep -q 'replay=analyser-panic' && echo "$p	PANIC	-	-	the analyser panicked (see mqttverif check -p $p -repo <tree>)"
     echo "$out" | awk -v P=$p '/^(VIOLATED|UNDECIDED)/{st=$1} /^  rule/{r=$2} /^  construct/{sub(/^  construct /,""); c=$0} /^  reason/{sub(/^  reason +/,""); print P"\t"st"\t"r"\t"c"\t"substr($0,1,160)}'
   fi
 done
